@@ -1,11 +1,12 @@
 CONSTANT Allocs = {1, 2, 3}
 CONSTANT MaxCounter = 12
 CONSTANT BatchCap = 4
-CONSTANT MaxSteps = 6
+CONSTANT MaxSteps = 5
 CONSTANT GrowModes = {TRUE, FALSE}
 CONSTANT FloorAhead = 2
 CONSTANT MaxPend = 1
 CONSTANT Fine = TRUE
+CONSTANT Acts = {"Next", "GTLast", "GTBatch", "GTBegin", "GiveBack", "Idle", "Stop"}
 SPECIFICATION Spec
 VIEW view
 INVARIANT Unique
